@@ -1251,3 +1251,9 @@ Proof.
   exists [mkRd 0 RdOk; mkRd 0 (RdErr E4xx); mkRd 0 RdOk; mkRd 0 RdOk; mkRd 0 RdOk; mkRd 1 RdLost].
   vm_compute. repeat split.
 Qed.
+
+(* ================================================================== *)
+(* 6. check-then-add must be atomic                                   *)
+Lemma split_check_and_add_exceeds :
+  exists es, s_pool (run (S := split_sys 1) es) = 2.
+Proof. exists [SCheck; SCheck; SAdd; SAdd]. vm_compute. reflexivity. Qed.
